@@ -124,3 +124,11 @@ func init() {
 	register("C15", &CheckSpec{Level: "fault_enumeration", Assumptions: append([]string{"decoder-level inputs are single mutations (truncation, one byte, one 16/32-bit window) of valid encodings; protocol-level inputs are record sequences up to length 3-4 over a fixed alphabet", "memory is judged by TotalAlloc growth during the call (limit 1 MiB + 64 x input bytes)"}, xferAssumptions...),
 		Parts: []*PartSpec{{Name: "decoder", Harness: "c15a", Shards: 4, Timeout: 20 * time.Minute}, xferPart("protocol", "c15", 16)}})
 }
+
+func init() {
+	register("C12", &CheckSpec{Level: "model_checking", Assumptions: []string{
+		"the SnapshotSender is constructed as the repository's tests construct it (no signaling connection; transferFn is a harness stub that blocks until released and observes its context)",
+		"every event is run to quiescence under the default schedule; interleavings inside one event are not enumerated by this part",
+		"histories up to the depth bound over 3 receivers; states are merged when the scheduling fields of the real object (statuses, queue, slots, in-flight invocations, staleness) agree",
+	}, Parts: []*PartSpec{{Name: "admission", Harness: "c12", Instrument: true, Shards: 2, GoMaxProcs: 1, ImportMap: quicMap, Timeout: 45 * time.Minute}}})
+}
